@@ -18,10 +18,12 @@ type FaultSpec struct {
 	DelayC2S []int   `json:"delay_c2s,omitempty"` // held back DelayMs (overtaken by later datagrams)
 	DelayS2C []int   `json:"delay_s2c,omitempty"`
 	DelayMs  int     `json:"delay_ms,omitempty"`
-	Loss     float64 `json:"loss,omitempty"`    // random, both directions
+	Loss     float64 `json:"loss,omitempty"` // random, both directions
 	Dup      float64 `json:"dup,omitempty"`
 	Reorder  float64 `json:"reorder,omitempty"` // fraction delayed by a random 1..DelayMs
 	Seed     int64   `json:"seed"`
+	// LatencyMs delays every delivery (both directions): a long path
+	LatencyMs int `json:"latency_ms,omitempty"`
 	// Burst: drop every datagram with BurstFrom <= dir index < BurstTo in the given direction
 	BurstS2CFrom int `json:"burst_s2c_from,omitempty"`
 	BurstS2CTo   int `json:"burst_s2c_to,omitempty"`
@@ -64,16 +66,16 @@ func (f FaultSpec) Plan(serverAddr string) func(d *simnet.Datagram) []simnet.Del
 			d.Fate = "drop-random"
 			return nil
 		}
-		out := []simnet.Delivery{{}}
+		out := []simnet.Delivery{{Delay: time.Duration(f.LatencyMs) * time.Millisecond}}
 		if has(del, d.DirIndex) {
-			out[0].Delay = time.Duration(delay) * time.Millisecond
+			out[0].Delay += time.Duration(delay) * time.Millisecond
 			d.Fate = "delay"
 		} else if f.Reorder > 0 && rng.Float64() < f.Reorder {
-			out[0].Delay = time.Duration(1+rng.Intn(delay)) * time.Millisecond
+			out[0].Delay += time.Duration(1+rng.Intn(delay)) * time.Millisecond
 			d.Fate = "delay-random"
 		}
 		if has(dup, d.DirIndex) || (f.Dup > 0 && rng.Float64() < f.Dup) {
-			out = append(out, simnet.Delivery{Delay: time.Duration(rng.Intn(3)) * time.Millisecond})
+			out = append(out, simnet.Delivery{Delay: time.Duration(f.LatencyMs+rng.Intn(3)) * time.Millisecond})
 			d.Fate += "+dup"
 		}
 		return out
